@@ -2,6 +2,7 @@ package eio
 
 import (
 	"net/http"
+	stdsync "sync"
 	"net/url"
 
 	"github.com/karagenc/socket.io-go/engine.io/parser"
@@ -10,6 +11,7 @@ import (
 
 // verifRecClient is a recording client transport: every Send call is one batch.
 type verifRecClient struct {
+	mu      stdsync.Mutex // a real transport serialises its sends: that lock is a scheduling point
 	name    string
 	batches [][]*parser.Packet
 	closed  int
@@ -22,13 +24,16 @@ func (t *verifRecClient) Handshake() (*parser.HandshakeResponse, error) {
 }
 func (t *verifRecClient) Run() {}
 func (t *verifRecClient) Send(packets ...*parser.Packet) {
+	t.mu.Lock()
 	t.batches = append(t.batches, append([]*parser.Packet(nil), packets...))
+	t.mu.Unlock()
 }
 func (t *verifRecClient) Discard() { t.discard++ }
 func (t *verifRecClient) Close()   { t.closed++ }
 
 // verifRecServerTransport is a recording server transport.
 type verifRecServerTransport struct {
+	mu       stdsync.Mutex // a real transport serialises its sends: that lock is a scheduling point
 	name     string
 	sent     []*parser.Packet
 	closed   int
@@ -52,7 +57,11 @@ func (t *verifRecServerTransport) QueuedPackets() []*parser.Packet {
 	t.queued = nil
 	return q
 }
-func (t *verifRecServerTransport) Send(p ...*parser.Packet) { t.sent = append(t.sent, p...) }
+func (t *verifRecServerTransport) Send(p ...*parser.Packet) {
+	t.mu.Lock()
+	t.sent = append(t.sent, p...)
+	t.mu.Unlock()
+}
 func (t *verifRecServerTransport) Discard()                 { t.discards++ }
 func (t *verifRecServerTransport) Close()                   { t.closed++ }
 
